@@ -148,6 +148,10 @@ fn gen_groups(seed: u64) -> Vec<Vec<OpSpec>> {
     groups.push(vec![OpSpec { i, kind: Kind::Stream { rows: rng.gen_range(2..=4) } }]);
     i += 1;
     groups.push(vec![OpSpec { i, kind: Kind::WriteThenRecompute }]);
+    // last of all a room mutation on its own: in the runs that inject an error the failpoint is armed again just before
+    // it, so that a room mutation reported failed is part of every such run
+    i += 1;
+    groups.push(vec![OpSpec { i, kind: Kind::RoomEdit }]);
     groups
 }
 
@@ -203,6 +207,9 @@ async fn child(seed: u64, dir: std::path::PathBuf, fp: String, k: u64, action: F
             peer.barrier().await;
             hooks::arm(&fp, k, action.clone());
             log.lock().unwrap().line("ARMED");
+        }
+        if gi + 1 == groups.len() && action == FailAction::Error {
+            hooks::arm(&fp, 1, FailAction::Error);
         }
         for op in group {
             let target = match &op.kind {
